@@ -355,6 +355,11 @@ fn ip_decode_oracle(bs: &[u8], h: &Option<Ipv4Header>, re: &Option<Vec<u8>>, lin
             // second clause of C08: re-encoding reproduces the consumed bytes
             match re {
                 Some(v) if v[..] == bs[..20] => {}
+                // compute_checksum build only (outside C08's default build): the received 0x0000 of a
+                // header whose other words sum to 0xffff is re-emitted as the equivalent 0xffff
+                Some(v) if CK && bs[10] == 0 && bs[11] == 0 && v[10] == 0xff && v[11] == 0xff && v[..10] == bs[..10] && v[12..] == bs[12..20] => {
+                    stat("ip4d_reencode_zero_as_ffff")
+                }
                 Some(v) => return Some(format!("ipv4 re-encode mismatch: {} -> {}", hex(&bs[..20]), hex(v))),
                 None => return Some(format!("ipv4 re-encode of an accepted header fails ({}): total_length {} < 20", line, h.total_length)),
             }
